@@ -95,6 +95,7 @@ def run(repo, rep, tier):
     r2 = rep.rule('C11.R2', 'batch APIs roll back or validate the whole '
                   'batch first')
     write_loops_are_duplicate_free(repo, rep)
+    rollback_undoes_own_work(repo, rep)
     res = Resolver(repo)
     ea = EscapeAnalysis(repo, res, model_none=False)
     funcs = []
@@ -388,14 +389,14 @@ def _succ_closure(cfg, n):
     return seen
 
 
-def write_loops_are_duplicate_free(repo, rep):
+def write_loops_are_duplicate_free(repo, rep, rid='C11.R3'):
     """C11.R3: a loop that deletes / creates one store entry per element of
     a collection must iterate a duplicate-free collection.  The second
     delete of the same entry is refused by the store (KeyError) after the
     first one already removed it: the operation raises although the
     repository was changed.  The collection comes from a helper; the helper
     must build it as a set (and return the set or list(set))."""
-    r3 = rep.rule('C11.R3', 'collections driving per-element store writes '
+    r3 = rep.rule(rid, 'collections driving per-element store writes '
                   'are duplicate-free')
     IWPF = 'pywbem_mock/_instancewriteprovider.py'
     cls = repo.cls(IWPF, 'InstanceWriteProvider')
@@ -467,3 +468,81 @@ def write_loops_are_duplicate_free(repo, rep):
                     % (lp.iter.id, ', '.join(h.qualname for h in helpers)))
     if r3.sites < 1:
         raise AnalysisError('C11.R3: no per-element store write loop found')
+
+
+UNDO_OF = {'remove_namespace': 'add_namespace', 'delete': 'create'}
+
+
+def rollbacks(func):
+    """(statement, call, undo name) for repository removals that run inside
+    an exception handler"""
+    out = []
+    for t in walk_no_nested(func.node):
+        if not isinstance(t, ast.Try):
+            continue
+        for h in t.handlers:
+            for st in h.body:
+                for c in ast.walk(st):
+                    if isinstance(c, ast.Call) and \
+                            isinstance(c.func, ast.Attribute) and \
+                            c.func.attr in UNDO_OF:
+                        out.append((st, c, c.func.attr))
+    return out
+
+
+def rollback_undoes_own_work(repo, rep):
+    """C11.R4: a provider that cleans up in an exception handler removes
+    only what the same call added.  `except CIMError: remove_namespace(ns);
+    raise` after a step that fails is a rollback only on the paths on which
+    this call ran add_namespace(ns); on a path that found the namespace
+    already present the handler removes something that existed before the
+    call - the rejected operation has changed the repository."""
+    from ..cfg import CFG
+    r4 = rep.rule('C11.R4', 'a removal in an exception handler is dominated '
+                  'by the matching addition of the same call')
+    nfun = 0
+    for m in repo.modules.values():
+        if not m.relpath.startswith('pywbem_mock/'):
+            continue
+        for f in m.all_funcs():
+            nfun += 1
+            rb = rollbacks(f)
+            if not rb:
+                continue
+            cfg = CFG(f.node)
+            for st, c, undo in rb:
+                r4.sites += 1
+                r4.functions.add(f.fq)
+                adds = [s_ for s_ in cfg.stmts()
+                        if not isinstance(s_, (ast.If, ast.For, ast.While,
+                                               ast.Try, ast.With)) and
+                        any(isinstance(x, ast.Call) and
+                            isinstance(x.func, ast.Attribute) and
+                            x.func.attr == UNDO_OF[undo] and
+                            [norm(a_) for a_ in x.args[:1]] ==
+                            [norm(a_) for a_ in c.args[:1]]
+                            for x in ast.walk(s_))]
+                ok = bool(adds) and cfg.path_avoiding(
+                    cfg.ENTRY, st, lambda n_: n_ in adds) is None
+                r4.ob(ok, '%s|%s' % (f.qualname, norm(c, 50)))
+                if not ok:
+                    rep.finding(r4, f.qualname, norm(c, 60),
+                                'rollback-of-foreign-state', m.relpath,
+                                c.lineno,
+                                'the handler calls %s on a path on which '
+                                'this call has not run the matching %s(): '
+                                'what existed before the (rejected) '
+                                'operation is removed'
+                                % (norm(c, 50), UNDO_OF[undo]))
+    r4.sites += 1
+    r4.ob(nfun > 200, 'functions-scanned', {'functions': nfun})
+    if nfun < 200:
+        raise AnalysisError('C11.R4: only %d functions scanned' % nfun)
+    probe = ast.parse('def f(self, ns):\n    try:\n        self.g()\n'
+                      '    except E:\n        self.remove_namespace(ns)\n'
+                      '        raise\n').body[0]
+
+    class _F:
+        node = probe
+    if len(rollbacks(_F)) != 1:
+        raise AnalysisError('C11.R4 recogniser broken')
